@@ -12,7 +12,7 @@ import (
 func newGen(p *Program, sp *Specs, dropped map[string]bool) *Gen {
 	g := &Gen{P: p, Specs: sp, s: newScript(), heapSo: map[string]string{}, inits: map[string]*HV{}, frameI: map[string]bool{}, tags: map[string]int{},
 		dropped: dropped, touched: map[string]bool{}, trustedUse: map[string]bool{}, structs: map[string]*types.Struct{}, memSeen: map[string]bool{},
-		ghostVals: map[string]CV{}, paramVals: map[string]CV{}}
+		ghostVals: map[string]CV{}, paramVals: map[string]CV{}, exIDs: map[string]string{}, instTerms: map[string][]string{}}
 	if g.dropped == nil {
 		g.dropped = map[string]bool{}
 	}
@@ -69,6 +69,9 @@ func (g *Gen) genFunc(fs *FuncSpec) {
 		}
 		vars[gp.Name] = v
 		g.ghostVals[gp.Name] = v
+		if so != "Int" {
+			g.addInstTerm(so, v.S)
+		}
 	}
 	withAliases(vars, rename)
 	g.entry = st0
@@ -261,6 +264,24 @@ func (f *frame) invEnv(st *State, pc string, hyp bool, li *loopInfo) *Env {
 		vars[k] = v
 	}
 	e := &Env{g: g, st: st, old: g.entry, vars: vars, cells: f.cells, pc: pc, hyp: hyp}
+	if li != nil {
+		// inside a loop's clauses "rangeindex" is that loop's own index variable
+		if ri, _ := rangeLoopShape(li); ri != nil {
+			cells := map[string]*ssa.Alloc{}
+			for k, v := range f.cells {
+				cells[k] = v
+			}
+			cells["rangeindex"] = ri
+			e.cells = cells
+		}
+		for _, ins := range li.head.Instrs {
+			if nx, ok := ins.(*ssa.Next); ok {
+				if r, ok := nx.Iter.(*ssa.Range); ok {
+					e.iterHeap = "iter." + f.prefix + r.Name()
+				}
+			}
+		}
+	}
 	if li != nil && li.spec != nil {
 		for _, u := range li.spec.Uses {
 			// "use <int expr>" inside a loop block: an instantiation term for quantified invariants
@@ -310,26 +331,37 @@ func (f *frame) loopHeader(li *loopInfo, pc string, st *State) string {
 	}
 	a0 := g.alloc(g.entry)
 	noAuto := li.spec != nil && li.spec.NoAuto
-	// automatic candidates (Houdini): freshness of local slice accumulators — established here
-	type cand struct {
-		id   string
-		cell *ssa.Alloc
-		heap string
+	// automatic candidates (Houdini): each is established here, assumed at the head if not
+	// dropped in an earlier round, and must be preserved on every back edge.
+	var cands []loopCand
+	addCand := func(id, what string, goal func(st *State) string) {
+		if g.dropped[id] {
+			return
+		}
+		cands = append(cands, loopCand{id: id, goal: goal})
+		o := f.oblig("inv.establish", id+".establish", pc, goal(st), "auto: "+what, li.head.Instrs[0].Pos(), nil)
+		o.Auto, o.AutoID = true, id
 	}
-	var cands []cand
 	if !noAuto {
 		for _, c := range cells {
+			c := c
 			v, live := st.cells[c]
-			if !live || v.So != "Slc" {
+			if !live {
 				continue
 			}
-			id := fmt.Sprintf("%s#loop%d.auto.fresh(%s)", key, li.ord, cellName(f, c))
-			if g.dropped[id] {
-				continue
+			if v.So == "Slc" {
+				addCand(fmt.Sprintf("%s#loop%d.auto.fresh(%s)", key, li.ord, cellName(f, c)), c.Comment+" is backed by an array allocated in this call",
+					func(s *State) string { v := s.cells[c]; return or("(snil "+v.S+")", "(> (ptr "+v.S+") "+a0+")") })
 			}
-			cands = append(cands, cand{id: id, cell: c})
-			o := f.oblig("inv.establish", id+".establish", pc, or("(snil "+v.S+")", "(> (ptr "+v.S+") "+a0+")"), "auto: "+c.Comment+" is backed by an array allocated in this call", li.head.Instrs[0].Pos(), nil)
-			o.Auto, o.AutoID = true, id
+		}
+		// range loops: -1 <= rangeindex < N by construction
+		if ri, n := rangeLoopShape(li); ri != nil {
+			if nv, ok := f.vals[n]; ok {
+				if _, live := st.cells[ri]; live {
+					addCand(fmt.Sprintf("%s#loop%d.auto.range(%s)", key, li.ord, cellName(f, ri)), "range index stays within -1 .. len-1",
+						func(s *State) string { v := s.cells[ri]; return and("(<= (- 1) "+v.S+")", "(< "+v.S+" (ite (< "+nv.S+" 0) 0 "+nv.S+"))", ) })
+				}
+			}
 		}
 		for _, h := range heaps {
 			if !strings.HasPrefix(g.heapSort(h), "(Array") || strings.HasPrefix(h, "iter.") {
@@ -339,7 +371,7 @@ func (f *frame) loopHeader(li *loopInfo, pc string, st *State) string {
 			if g.dropped[id] {
 				continue
 			}
-			cands = append(cands, cand{id: id, heap: h})
+			cands = append(cands, loopCand{id: id, heap: h})
 		}
 	}
 	// havoc
@@ -378,15 +410,11 @@ func (f *frame) loopHeader(li *loopInfo, pc string, st *State) string {
 	}
 	var hyps []string
 	for _, cd := range cands {
-		if cd.cell != nil {
-			v := st.cells[cd.cell]
-			hyps = append(hyps, or("(snil "+v.S+")", "(> (ptr "+v.S+") "+a0+")"))
+		if cd.goal != nil {
+			hyps = append(hyps, cd.goal(st))
 		}
 	}
-	li.cands = nil
-	for _, cd := range cands {
-		li.cands = append(li.cands, loopCand{cd.id, cd.cell, cd.heap})
-	}
+	li.cands = cands
 	if li.spec != nil {
 		env := f.invEnv(st, pc, true, li)
 		for _, c := range li.spec.Invs {
@@ -404,8 +432,36 @@ func (f *frame) loopHeader(li *loopInfo, pc string, st *State) string {
 
 type loopCand struct {
 	id   string
-	cell *ssa.Alloc
+	goal func(st *State) string
 	heap string
+}
+
+// rangeLoopShape recognises the head of a "for range slice" loop as go/ssa builds it:
+// rangeindex++ ; if rangeindex < N. It returns the index cell and N.
+func rangeLoopShape(li *loopInfo) (*ssa.Alloc, ssa.Value) {
+	var cell *ssa.Alloc
+	for _, ins := range li.head.Instrs {
+		switch i := ins.(type) {
+		case *ssa.Store:
+			if a, ok := i.Addr.(*ssa.Alloc); ok && a.Comment == "rangeindex" {
+				cell = a
+			}
+		case *ssa.BinOp:
+			if i.Op.String() == "<" && cell != nil {
+				if blk := valueBlock(i.Y); blk == nil || !li.body[blk] {
+					return cell, i.Y
+				}
+			}
+		}
+	}
+	return nil, nil
+}
+
+func valueBlock(v ssa.Value) *ssa.BasicBlock {
+	if ins, ok := v.(ssa.Instruction); ok {
+		return ins.Block()
+	}
+	return nil
 }
 
 func cellName(f *frame, c *ssa.Alloc) string {
@@ -438,12 +494,8 @@ func (f *frame) backEdge(from, to *ssa.BasicBlock, pc string, st *State) {
 	a0 := g.alloc(g.entry)
 	for _, cd := range li.cands {
 		var goal string
-		if cd.cell != nil {
-			v, live := st.cells[cd.cell]
-			if !live {
-				continue
-			}
-			goal = or("(snil "+v.S+")", "(> (ptr "+v.S+") "+a0+")")
+		if cd.goal != nil {
+			goal = cd.goal(st)
 		} else {
 			h0 := g.hv(li.entry, cd.heap)
 			goal = imp(and("(<= RK "+a0+")", "(> RK 0)"), eq(g.readHeap(st, cd.heap, "RK"), app("select", h0.term, "RK")))
